@@ -165,6 +165,8 @@ func VerifModel_url_Values_Encode(v url.Values) string {
 			out += k + "=" + val
 		}
 	}
+	// what was encoded decodes back to the same parameters
+	queryRegistry = append(queryRegistry, queryEntry{out, v})
 	return out
 }
 
@@ -306,4 +308,9 @@ func VerifModel_url_URL_Port(u *url.URL) string {
 		}
 	}
 	return ""
+}
+
+// (*http.Request).SetBasicAuth: sets the Authorization header (the encoding is opaque).
+func VerifModel_http_Request_SetBasicAuth(r *http.Request, username, password string) {
+	r.Header.Set("Authorization", "Basic "+UFString("basicauth", username, password))
 }
